@@ -21,7 +21,26 @@ def fft_cfg(kinds, rates, chunks, subs, depth=0, emit=False, invariants=FFT_INV)
     lines += ["INVARIANT " + i for i in invariants]
     if emit:
         lines.append("INVARIANT EmitScript")
+    else:
+        # the machine takes exactly the transitions of FftInd.tla, whose invariant is proved (FftIndProofs.tla)
+        lines += ["PROPERTY IndRefines", "INVARIANT IndInvHere"]
     return "\n".join(lines) + "\n"
+
+
+def check_proof(wd, timeout=900):
+    """tlapm on FftIndProofs.tla (the FFT integer machine for arbitrary rates and sizes). Returns the
+    number of proof obligations; a failed or missing proof is a tool error (it says nothing about the code)."""
+    import shutil
+    d = os.path.join(wd, "proof")
+    shutil.rmtree(d, ignore_errors=True)
+    os.makedirs(d)
+    for f in ("FftIndOps.tla", "FftInd.tla", "FftIndProofs.tla"):
+        shutil.copy(os.path.join(run.SPEC, f), d)
+    rc, out = run.sh(["timeout", str(timeout), "tlapm", "--threads", "8", "FftIndProofs.tla"], cwd=d)
+    m = re.search(r"All (\d+) obligations proved", out)
+    if not m:
+        raise run.ToolError("tlapm did not prove FftIndProofs.tla:\n" + out[-2000:])
+    return int(m.group(1))
 
 
 def async_cfg(fam, variants, interps, fs, L, chunkmaxs, chunks, ratios, origs, maxrels, q, depth,
